@@ -44,15 +44,17 @@ TRUSTED_EXTRA = [
 
 # order in which a violation observed outside the proved region is attributed to a named defect
 PRIORITY = [
+    # trusted deserialization
     "crash:enum-mapping", "unnormalised:array-of-enum", "dropped:set-items",
-    "optional-unchecked:non-none-option", "optional-unchecked:none-first", "optional-unchecked:set",
+    "optional-unchecked:non-none-option", "optional-unchecked:none-first", "unnormalised:optional-immutable-set",
     "none-attribute-hash:set-of-structures",
     "dropped:undeclared-keys", "unnormalised:boolean-string", "defaults-not-applied",
-    "unnormalised:enum-name", "unnormalised:inline-dict", "unnormalised:rebuilt-collection", "unnormalised:float-int",
+    "unnormalised:enum-name", "unnormalised:inline-dict", "unnormalised:float-int",
     "mapper:cascade", "mapper:fallback",
+    # fast serialization: instance-level causes first, then declaration-level ones
+    "fast:extras-dropped", "fast:compact-conditions",
     "fast:tuple-index", "fast:positional-index", "fast:json-dumps", "fast:untyped-raw", "fast:inline-none-keys",
-    "fast:nonfast-nested", "fast:multi-wrapper", "fast:mapper-cascade", "fast:compact-conditions", "fast:extras-dropped",
-    "decimal",
+    "fast:nonfast-nested", "fast:mapper-cascade", "fast:multi-wrapper",
 ]
 
 
